@@ -138,6 +138,7 @@ func checkC09(p *core.Program, r *core.Report) {
 	r.Rule("R2", "lock discipline: every access to flowAssets.cache is preceded by mutex.Lock() in the same function with the Unlock deferred (no explicit Unlock can reach the access)")
 	r.Rule("R3", "lazily initialised values are not shared: package-level variables of types with an unsynchronised initialise-on-read method (XObject, XArray) are constructed eagerly")
 	r.Rule("R4", "the writer callbacks handed out by EnumerateLocalizables are invoked only on a flow that is a fresh copy")
+	r.Rule("R5", "JSON decode targets do not alias shared data: no pointer field of a struct handed to a JSON decoder can hold a pointer derived from a package-level variable at the call (encoding/json writes through existing pointers), unless the function stores a fresh value into it first")
 	r.Assumption("dependencies (validator caches, regexp) are goroutine-safe; the host's asset source is goroutine-safe")
 
 	shared := sharedTypes(p)
@@ -419,6 +420,8 @@ func checkC09(p *core.Program, r *core.Report) {
 
 	// ------------------------------------------------------------------ R4 writer callbacks
 	c09R4(p, r)
+	// ------------------------------------------------------------------ R5 decode targets
+	c09R5(p, r)
 }
 
 // globalLazyInit: decides whether the XObject/XArray stored in global g is fully initialised before it is published.
@@ -611,4 +614,183 @@ func c09LockHeld(p *core.Program, fn *ssa.Function, at ssa.Instruction, depth in
 		}
 	}
 	return "no mutex.Lock() dominates this access"
+}
+
+// ---------------------------------------------------------------------------------------------- R5 unmarshal targets
+
+// c09R5: decoding JSON into a value writes through every non-nil pointer the value already holds (encoding/json reuses
+// an existing pointee). A target whose pointer field holds package-level data is therefore a write to shared state by
+// whoever reads JSON — sessions, environments, assets. For every call of a JSON decoder in non-test module code the
+// pointer fields of the target struct are examined: a field is fine when this function stores a fresh value into it
+// before the call, or when no store anywhere in the module can put a pointer derived from a package-level variable
+// into it (field-based, flow-insensitive closure over stores and field-to-field copies).
+func c09R5(p *core.Program, r *core.Report) {
+	sinks := map[string]int{
+		"encoding/json.Unmarshal": 1, "github.com/nyaruka/gocommon/jsonx.Unmarshal": 1, "github.com/nyaruka/gocommon/jsonx.MustUnmarshal": 1,
+		"github.com/nyaruka/gocommon/jsonx.UnmarshalWithLimit": 1, "utils.UnmarshalAndValidate": 1, "utils.UnmarshalAndValidateWithLimit": 1,
+	}
+	// which struct fields may hold a pointer to package-level data
+	mayGlobal := map[*types.Var]string{}
+	type fieldStore struct {
+		field *types.Var
+		val   ssa.Value
+		fn    *ssa.Function
+	}
+	var stores []fieldStore
+	for _, fn := range p.ModuleFunctions() {
+		if p.IsTestFile(fn.Pos()) {
+			continue
+		}
+		core.EachInstr(fn, false, func(f *ssa.Function, in ssa.Instruction) {
+			st, ok := in.(*ssa.Store)
+			if !ok {
+				return
+			}
+			fv := core.FieldAddrVar(st.Addr)
+			if fv == nil {
+				return
+			}
+			if _, isPtr := fv.Type().Underlying().(*types.Pointer); !isPtr {
+				return
+			}
+			stores = append(stores, fieldStore{fv, st.Val, f})
+		})
+	}
+	globalDerived := func(v ssa.Value) string {
+		for x := range core.BackSlice(v, nil) {
+			switch y := x.(type) {
+			case *ssa.Global:
+				if y.Pkg != nil && core.InModule(y.Pkg.Pkg.Path()) {
+					return "package variable " + y.Name()
+				}
+			case *ssa.UnOp:
+				if fv := core.FieldAddrVar(y.X); fv != nil {
+					if why, ok := mayGlobal[fv]; ok {
+						return "field " + fv.Name() + " (" + why + ")"
+					}
+				}
+			}
+		}
+		return ""
+	}
+	for changed := true; changed; {
+		changed = false
+		for _, st := range stores {
+			if _, done := mayGlobal[st.field]; done {
+				continue
+			}
+			if why := globalDerived(st.val); why != "" {
+				mayGlobal[st.field] = why
+				changed = true
+			}
+		}
+	}
+	n := 0
+	per := map[string]int{}
+	for _, cs := range p.AllCalls() {
+		if p.IsTestFile(cs.Pos()) {
+			continue
+		}
+		o := core.CalleeObj(cs.Common())
+		if o == nil {
+			continue
+		}
+		idx, isSink := sinks[core.ObjName(o)]
+		if !isSink || idx >= len(cs.Common().Args) {
+			continue
+		}
+		target := stripIface(cs.Common().Args[idx])
+		pt, ok := target.Type().Underlying().(*types.Pointer)
+		if !ok {
+			continue
+		}
+		st, ok := pt.Elem().Underlying().(*types.Struct)
+		if !ok {
+			continue
+		}
+		n++
+		for i := 0; i < st.NumFields(); i++ {
+			f := st.Field(i)
+			if _, isPtr := f.Type().Underlying().(*types.Pointer); !isPtr {
+				continue
+			}
+			why, risky := mayGlobal[f]
+			if !risky {
+				continue
+			}
+			// what the field holds at the call: follow the target to where it was built
+			fresh := false
+			storesInto := func(fn *ssa.Function, root ssa.Value, before ssa.Instruction) (n int, bad string) {
+				for _, b := range fn.Blocks {
+					for _, in := range b.Instrs {
+						s2, ok := in.(*ssa.Store)
+						if !ok || core.FieldAddrVar(s2.Addr) != f {
+							continue
+						}
+						fa, ok := s2.Addr.(*ssa.FieldAddr)
+						if !ok || !(fa.X == root || sameSeq(fa.X, root) || canon(fa.X) == canon(root)) {
+							continue
+						}
+						if before != nil && !instrReaches(s2, before) {
+							continue
+						}
+						n++
+						if _, isAlloc := core.StripConv(s2.Val).(*ssa.Alloc); isAlloc {
+							// the address of a new variable: a fresh pointee whatever was copied into it (by value)
+							if before != nil && core.InstrDominates(s2, before) {
+								bad = ""
+								fresh = true
+							}
+							continue
+						}
+						if w := globalDerived(s2.Val); w != "" {
+							bad = w
+						}
+					}
+				}
+				return
+			}
+			origin := derefLocal(target)
+			switch x := origin.(type) {
+			case *ssa.Alloc:
+				if _, bad := storesInto(cs.Caller, x, cs.Instr); bad == "" {
+					fresh = true
+				} else {
+					why = bad
+				}
+			case *ssa.Call:
+				g := x.Call.StaticCallee()
+				if g != nil && len(g.Blocks) > 0 && core.InModule(core.FuncPkgPath(g)) {
+					risky2 := ""
+					for _, ret := range core.Returns(g) {
+						for v := range core.BackSlice(ret.Results[0], nil) {
+							if al, ok := v.(*ssa.Alloc); ok {
+								if _, bad := storesInto(g, al, nil); bad != "" {
+									risky2 = bad
+								}
+							}
+						}
+					}
+					if risky2 == "" {
+						fresh = true
+					} else {
+						why = risky2 + ", stored by " + g.Name()
+						// overridden in the caller before the call?
+						storesInto(cs.Caller, target, cs.Instr)
+					}
+				}
+			default:
+				storesInto(cs.Caller, target, cs.Instr)
+			}
+			key := core.FuncName(cs.Caller) + "/decode-target." + f.Name()
+			per[key]++
+			if per[key] > 1 {
+				key = fmt.Sprintf("%s#%d", key, per[key])
+			}
+			r.Check(fresh, "R5", key, p.Pos(cs.Pos()), "the pointer field is given a fresh value before decoding",
+				"JSON is decoded into a value whose pointer field "+f.Name()+" can hold "+why+": encoding/json writes through an existing pointer, so reading this JSON rewrites data shared by every session in the process")
+		}
+	}
+	r.Count("json_decode_sites", n)
+	r.Require("json_decode_sites", n, 60)
 }
